@@ -311,6 +311,8 @@ def rule_V1(ctx):
         n_p += 1
         subst, hyps, byid = {}, [Lin({LEN: 1})], {}
         for it in items:
+            if it[0] == "blk":
+                continue
             if it[0] == "br":
                 c = wf.nodes[it[1]]
                 byid[c["id"]] = it[2]
